@@ -695,10 +695,10 @@ def rule_f(ctx: Context, R: Reporter, subs: List[ClassInfo]):
 
 def run(ctx: Context, R: Reporter):
     base, subs = kernels(ctx)
-    rule_a(ctx, R, subs)
-    rule_bc(ctx, R, base, subs)
-    rule_de(ctx, R, subs)
-    rule_f(ctx, R, subs)
+    R.guard(rule_a, ctx, R, subs)
+    R.guard(rule_bc, ctx, R, base, subs)
+    R.guard(rule_de, ctx, R, subs)
+    R.guard(rule_f, ctx, R, subs)
 
 
 def variants():
